@@ -316,8 +316,8 @@ MANIFEST_TEXT = {
         "technique": "Lean 4 proof of the rewrite's frame at table level + byte-level differential check against an independent walker",
     },
     "C05": {
-        "text": "Lean theorems C05_accept_top_rules / C05_nometadata_iff (soundness of the top-level rules, for EVERY stream, configuration and cursor kind): whenever the model of sanitize returns a result, the INDEPENDENT walker finds a clean sequence of complete top-level boxes in which only free/skip precede the single ftyp, the ftyp payload has 8..1024 bytes and lists the isom brand, every box is ftyp/moov/mdat/free/skip/meta/meco, at least one moov (payload within max_metadata_size) and one mdat exist and every mdat lies in the one media run - and no metadata is returned exactly when the Spec's NoMetadata holds (last moov before first mdat). Proved with the relational program logic (Lemmas/Tri.lean, ScanRel.lean, TopRel.lean: the scan loop refines a top-level state machine over the walker's boxes) and list lemmas. Further (decision logic stated outright): a chunk-offset table is accepted iff version/flags are zero, the count exactly fills the box and the table is below 4 GiB, with the error kind of each violation; after the scan missing ftyp/moov/mdat is MissingRequiredBox and 'nothing to do' is returned iff the last moov starts before the first mdat; ftyp payloads below 8 bytes are TruncatedBox. Spec_C05 (accepted iff Rules and not an overflow refusal; no-op iff moov first), written over the independent walker, is evaluated on the real code over exhaustive top-level layouts, header pathologies, every moov-tree rule broken in turn and truncations, for both reader kinds.",
-        "note": "Partial: the top-level half of accepted -> Rules is a theorem; the moov-tree clause of the rules and the converse (every file meeting the rules is accepted unless a rewrite overflows) are decided per generated case on the implementation. The check found defect F1 (see C03). Trusted: as C01.",
+        "text": "Lean theorems C05_accept_rules / C05_accept_top_rules / C05_nometadata_iff / C05_spec_noop (SOUNDNESS of the documented rules, for EVERY stream, configuration and cursor kind): whenever the model of sanitize returns a result, Rules of the independent specification (Spec/Mp4Rules.lean over the independent walker) holds of the input: a clean sequence of complete top-level boxes in which only free/skip precede the single ftyp, ftyp payload 8..1024 bytes listing isom, every box ftyp/moov/mdat/free/skip/meta/meco, at least one moov and one mdat, every mdat in the one media run, and every moov within max_metadata_size whose children are a clean box sequence with at least one trak, each trak holding exactly one mdia>minf>stbl chain with exactly one version-0 stco xor co64 whose count exactly fills its box (below 4 GiB); no metadata is returned exactly when the Spec's NoMetadata holds, and Spec_C05 has no complaint about such an answer. Proved with the relational program logic (Lemmas/Tri.lean; ScanRel/TopRel: the scan loop refines a top-level state machine over the walker's boxes; TreeRel: the model's lazily parsed tree over a slice of the stream sees exactly the walker's children/only/tableOf of that region, level by level) and list lemmas. Further (decision logic stated outright): a chunk-offset table is accepted iff version/flags are zero, the count exactly fills the box and the table is below 4 GiB, with the error kind of each violation; after the scan missing ftyp/moov/mdat is MissingRequiredBox and 'nothing to do' is returned iff the last moov starts before the first mdat; ftyp payloads below 8 bytes are TruncatedBox. Spec_C05 (accepted iff Rules and not an overflow refusal; no-op iff moov first), written over the independent walker, is evaluated on the real code over exhaustive top-level layouts, header pathologies, every moov-tree rule broken in turn and truncations, for both reader kinds.",
+        "note": "Partial: accepted -> Rules (nothing outside the rules is accepted) is a theorem of the model; the converse (every file meeting the rules is accepted unless a rewrite overflows) and the overflow-refusal clause are decided per generated case on the implementation. The check found defect F1 (see C03). Trusted: as C01.",
         "technique": "Lean 4 proof of the component decisions + exhaustive small-layout differential check against a declarative rule set",
     },
     "C01": {
